@@ -10,6 +10,8 @@
 import SimVerif.Kernel
 import SimVerif.Queue
 import SimVerif.Tcp
+import SimVerif.Pcap
+import SimVerif.Resolver
 
 namespace SimVerif.Drv
 
@@ -75,15 +77,20 @@ structure KSt where
   compl : List (Nat × Ec × String) := []       -- posted user completions: handler ↦ (ec, text after it)
   itimers : List ((String × Nat) × Nat) := []  -- (owner, slot) ↦ kernel timer id of an internal timer
   icbs : List ICb := []                        -- internal callbacks; kernel handler id = 2000000 + index
-  sends : List String := []
+  capture : List (List UInt8) := []            -- capture records (reversed)
   wrOff : List (String × Nat) := []            -- "<socket>/<stream>" ↦ next offset to write
   wrKeys : List (Nat × String) := []
+  rs : List (String × (String × R)) := []      -- resolvers: name ↦ (node, state)
+  loops : List (Nat × (String × String × Nat × Nat × Nat)) := []   -- handler ↦ (kind, socket, a, b, c): self-perpetuating transfers
   hidden : List String := []                   -- sockets of a socket-returning accept, not yet handed to the program
   pendNew : List (Nat × String) := []          -- accept handler ↦ the socket it will hand over           -- write handler ↦ its offset key                    -- capture log (reversed)
   pend : List (Nat × Nat) := []     -- timer ↦ handler id of the wait whose slot may be busy
   out  : List String := []          -- reversed
   stepNo : Nat := 0                 -- event boundaries seen (step hook)
   bad  : Bool := false
+  threw : Bool := false                        -- run() left through its catch-all
+  thrown : Bool := false                       -- a handler threw: unwinding to run()'s catch-all
+  pendFinish : Option (String × Bool) := none  -- resolver whose on_lookup must finish after the inline handler
   pendInv : List Compl := []                   -- handlers to be called inline by the current internal callback
   dead : List Nat := []             -- destroyed timer ids (never reused)
 
@@ -127,6 +134,11 @@ def KSt.declare (s : KSt) (decl : List (List String)) : KSt :=
     | "route" :: "out" :: k :: hs => { s with net := { s.net with cfg := { s.net.cfg with routeOut := (k, hs) :: s.net.cfg.routeOut.filter (·.1 != k) } } }
     | "route" :: "net" :: k :: hs => { s with net := { s.net with cfg := { s.net.cfg with routeNet := (k, hs) :: s.net.cfg.routeNet.filter (·.1 != k) } } }
     | ["mtu", k, v] => { s with net := { s.net with cfg := { s.net.cfg with mtu := (k, v.toNat?.getD 1475) :: s.net.cfg.mtu.filter (·.1 != k) } } }
+    | "dns" :: name :: args =>
+      let err := match (findKv? args "err").getD "ok" with
+        | "ok" => Ec.ok | "host_not_found" => Ec.hostNotFound | _ => Ec.other
+      let ips := splitCommas ((findKv? args "ips").getD "")
+      { s with net := { s.net with cfg := { s.net.cfg with dns := (name, (err, ips, (findInt? args "lat").getD 0)) :: s.net.cfg.dns.filter (·.1 != name) } } }
     | "pcap" :: _ => { s with net := { s.net with cfg := { s.net.cfg with pcap := true } } }
     | _ => s) s
 
@@ -174,6 +186,10 @@ def applyQEffs (p : KParams) (qi : Nat) (effs : List QEff) (s : KSt) : KSt :=
         match s.net.fwdTarget fid with
         | some name => { s with net := s.net.tcpPacketDropped s.tp name pk }
         | none => s) s
+
+/-- dotted quad → number (the capture only handles IPv4) -/
+def ip4 (a : String) : Nat :=
+  (a.splitOn ".").foldl (fun acc x => acc * 256 + (x.toNat?.getD 0)) 0
 
 def natRewrite (src ext : String) : String :=
   match (src.splitOn ":").getLast? with
@@ -310,8 +326,10 @@ def applyNEffs (p : KParams) : Nat → List NEff → KSt → KSt
         let r := s.net.tcpAckPost s.tp sock wb acked
         let s := { s with net := r.1 }
         if r.2 then applyNEffs p f [.tcpWake sock] s else s
-      | .pcapUdp t src dst pl => { s with sends := ("udp t=" ++ toString t ++ " " ++ src.toString ++ ">" ++ dst.toString ++ " len=" ++ toString pl.length) :: s.sends }
-      | .pcapTcp t src dst sq pl => { s with sends := ("tcp t=" ++ toString t ++ " " ++ src.toString ++ ">" ++ dst.toString ++ " seq=" ++ toString sq ++ " len=" ++ toString pl.length) :: s.sends }
+      | .pcapUdp t src dst pl =>
+        { s with capture := Pcap.recordUdp t.toNat (ip4 src.addr) (ip4 dst.addr) src.port dst.port pl :: s.capture }
+      | .pcapTcp t src dst sq pl =>
+        { s with capture := Pcap.recordTcp t.toNat (ip4 src.addr) (ip4 dst.addr) src.port dst.port sq pl :: s.capture }
     applyNEffs p (f + 1) rest s
 termination_by f effs _ => (f, effs.length)
 
@@ -412,6 +430,16 @@ def objNode (op : List String) (s : KSt) : String :=
   match op with
   | _ :: nd :: _ => nd
   | _ => ((s.net.cfg.nodes.head?).map Prod.fst).getD "n0"
+
+/-- one round of `write_loop`: write the next chunk of the stream -/
+def loopWrite (p : KParams) (hn : Nat) (name : String) (stream total chunk : Nat) (s : KSt) : KSt :=
+  let key := name ++ "/" ++ toString stream
+  let off := (s.wrOff.lookup key).getD 0
+  let len := min chunk (total - min total off)
+  let data := (List.range len).map (fun i => streamByte stream (off + i))
+  let s := { s with wrKeys := (hn, key) :: s.wrKeys.filter (·.1 != hn) }
+  let r := s.net.tcpAsyncWrite name { h := hn, bufs := [data], stream := stream, off := off }
+  applyNEffs p netFuel r.2 { s with net := r.1 }
 
 /-- ops on TCP sockets (`s<k>`), acceptors (`a<k>`) and UDP sockets (`u<k>`). `none` = not a
     network op. Result strings are those of harness/simdrv_net.cpp. -/
@@ -531,6 +559,18 @@ def doNetOp (p : KParams) (ctx : String) (op : List String) (s : KSt) : Option K
               let caps := (cutSizes ((findNat? rest "cap").getD 1) ((findNat? rest "bufs").getD 1)).filter (· > 0)
               some (res (fx (s.net.tcpAsyncRead name { h := hn, caps := caps }) s) "-")
           | "wait_read", h :: _ => (hOf h).map (fun hn => res (fx (s.net.tcpWaitRead name hn) s) "-")
+          | "read_loop", h :: rest =>
+            (hOf h).map (fun hn =>
+              let cap := (findNat? rest "cap").getD 4096
+              let s := { s with loops := (hn, ("read", name, cap, 0, 0)) :: s.loops.filter (·.1 != hn) }
+              res (fx (s.net.tcpAsyncRead name { h := hn, caps := [cap] }) s) "-")
+          | "write_loop", h :: rest =>
+            (hOf h).map (fun hn =>
+              let stream := (findNat? rest "stream").getD 0
+              let total := (findNat? rest "total").getD 1
+              let chunk := (findNat? rest "chunk").getD 1000
+              let s := { s with loops := (hn, ("write", name, stream, total, chunk)) :: s.loops.filter (·.1 != hn) }
+              res (loopWrite p hn name stream total chunk s) "-")
           | "read_nb", rest =>
             let caps := (cutSizes ((findNat? rest "cap").getD 1) ((findNat? rest "bufs").getD 1)).filter (· > 0)
             let r := s.net.tcpReadNb name caps
@@ -573,12 +613,77 @@ def doNetOp (p : KParams) (ctx : String) (op : List String) (s : KSt) : Option K
           | _, _ => some (res s "bad-op")
     | _ => none
 
+/-- does the host string parse as an IPv4 (dotted quad) or IPv6 literal? -/
+def isAddrLiteral (s : String) : Bool :=
+  let parts := s.splitOn "."
+  (parts.length == 4 && parts.all (fun x => x.length > 0 && x.length ≤ 3 && x.all Char.isDigit && (x.toNat?.getD 256) < 256))
+    || (s.contains ':' && s.all (fun c => c == ':' || c.isDigit || ('a' ≤ c && c ≤ 'f') || ('A' ≤ c && c ≤ 'F') || c == '.'))
+
+def resExtra (res : List (String × Nat)) : String :=
+  "res=" ++ (if res.isEmpty then "-" else ",".intercalate (res.map (fun e => ({ addr := e.1, port := e.2 } : Ep).toString)))
+
+def KSt.setR (s : KSt) (name : String) (r : R) : KSt :=
+  { s with rs := s.rs.map (fun e => if e.1 == name then (e.1, (e.2.1, r)) else e) }
+
+/-- interpret the effects of a resolver function; inline invocations go to `pendInv` -/
+def applyREffs (p : KParams) (name : String) (effs : List REff) (s : KSt) : KSt :=
+  effs.foldl (fun s e =>
+    match e with
+    | .armTimer e => applyNEffs p netFuel [.armTimer name 0 e (.resolverLookup name)] s
+    | .post h ec res => applyNEffs p netFuel [.post { h := h, ec := ec, extra := resExtra res }] s
+    | .invoke h ec res => { s with pendInv := s.pendInv ++ [{ h := h, ec := ec, extra := resExtra res }] }
+    | .ub => { s with bad := true }) s
+
+def hexStr (str : String) : String := hexOf str.toUTF8.toList
+
+/-- `r<k>.new|resolve|cancel|destroy` -/
+def doResolverOp (p : KParams) (rp : RParams) (ctx : String) (op : List String) (s : KSt) : Option KSt :=
+  match op with
+  | [] => none
+  | o :: args =>
+    match o.splitOn "." with
+    | [name, m] =>
+      if !(name.front == 'r') || !((name.drop 1).toString.toNat?).isSome then none else
+      let res := fun (s : KSt) (r : String) => s.emit ("C " ++ ctx ++ " " ++ joinSp op ++ " => " ++ r)
+      if m == "new" then some (res { s with rs := s.rs.filter (·.1 != name) ++ [(name, (objNode op s, {}))] } "-") else
+      match s.rs.lookup name with
+      | none => some (res s "skipped")
+      | some (node, r) =>
+        match m, args with
+        | "resolve", host :: service :: h :: _ =>
+          match parseId? "h" h with
+          | none => some (res s "bad-op")
+          | some hn =>
+            let host := if host == "-" then "" else host
+            let port := service.toNat?.getD 0
+            if isAddrLiteral host then
+              let x := r.resolveLiteral s.k.now host port hn
+              some (res (applyREffs p name x.2 (s.setR name x.1)) "-")
+            else
+              let req := ((s.net.cfg.ipsOf node).head?).getD "?"
+              let s := s.emit ("L lookup t=" ++ toString s.k.now ++ " req=" ++ req ++ " name=" ++ hexStr host)
+              let (err, ips, lat) := (s.net.cfg.dns.lookup host).getD (Ec.hostNotFound, [], 100000000)
+              let x := r.resolveName rp s.k.now err ips lat port hn
+              some (res (applyREffs p name x.2 (s.setR name x.1)) "-")
+        | "cancel", _ =>
+          let x := r.cancel
+          some (res (applyREffs p name x.2 (s.setR name x.1)) "-")
+        | "destroy", _ =>
+          -- ~basic_resolver(): cancel(), then the timer is destroyed
+          let x := r.cancel
+          let s := applyREffs p name x.2 (s.setR name x.1)
+          let s := applyNEffs p netFuel [.cancelTimer name 0] s
+          some (res { s with rs := s.rs.filter (·.1 != name) } "-")
+        | _, _ => some (res s "bad-op")
+    | _ => none
+
 mutual
 /-- Execute one op of context `ctx` (depth bounds inline `dispatch` nesting). -/
 def doOp (p : KParams) (scn : Scn) (depth : Nat) (ctx : String) (op : List String) (s : KSt) : KSt :=
   let text := joinSp op
   let c := "C " ++ ctx ++ " "
   match op with
+  | ["throw"] => ({ s with thrown := true }).emit (c ++ "throw")
   | ["stop"] => ({ s with k := step p s.k .stop }).emit (c ++ "stop => -")
   | ["restart"] => ({ s with k := step p s.k .restart }).emit (c ++ "restart => -")
   | ["now"] => s.emit (c ++ "now => " ++ toString s.k.now)
@@ -602,6 +707,9 @@ def doOp (p : KParams) (scn : Scn) (depth : Nat) (ctx : String) (op : List Strin
     | none => { s with bad := true }
   | o :: args =>
     match doNetOp p ctx op s with
+    | some s' => s'
+    | none =>
+    match doResolverOp p {} ctx op s with
     | some s' => s'
     | none =>
     match timerOp? o with
@@ -649,7 +757,9 @@ def doOp (p : KParams) (scn : Scn) (depth : Nat) (ctx : String) (op : List Strin
 def doOps (p : KParams) (scn : Scn) (depth : Nat) (ctx : String) (ops : List (List String)) (s : KSt) : KSt :=
   match ops with
   | [] => s
-  | op :: rest => doOps p scn depth ctx rest (doOp p scn depth ctx op s)
+  | op :: rest =>
+    let s := doOp p scn depth ctx op s
+    if s.thrown then s else doOps p scn depth ctx rest s
 end
 
 /-- `poll()`: run ready handlers until none is left. Returns the count. -/
@@ -667,6 +777,21 @@ def pollLoop (p : KParams) (scn : Scn) : Nat → KSt → Nat → KSt × Nat
             | some (.udpSendWait name) =>
               let r := s.net.udpSendWaitFired name (t.ec == Ec.aborted)
               applyNEffs p netFuel r.2 { s with net := r.1 }
+            | some (.resolverLookup name) =>
+              -- on_lookup(ec): guard, pop the front, call its handler inline (below), re-arm
+              if t.ec == Ec.aborted then s else
+              match s.rs.lookup name with
+              | none => s
+              | some (_, r) =>
+                match r.onLookupGuard {} s.k.now with
+                | some effs => applyREffs p name effs s
+                | none =>
+                  match r.onLookupPop with
+                  | (_, none) => s
+                  | (r1, some (v, empty)) =>
+                    let s := s.setR name r1
+                    { s with pendInv := s.pendInv ++ [({ h := v.h, ec := v.err, extra := resExtra v.res } : Compl)],
+                             pendFinish := some (name, empty) }
             | some (.tcpConnectRefused _ h) =>
               -- the handler was bound together with the refusal; the timer's own code is ignored
               { s with pendInv := s.pendInv ++ [({ h := h, ec := Ec.refused } : Compl)] }
@@ -677,6 +802,16 @@ def pollLoop (p : KParams) (scn : Scn) : Nat → KSt → Nat → KSt × Nat
             let s := s.emit ("H " ++ h ++ " t=" ++ toString s.k.now ++ " ec=" ++ toString c.ec
               ++ (if c.extra.isEmpty then "" else " " ++ c.extra) ++ " incall=0")
             doOps p scn 8 h (scn.ops h) s) { s with pendInv := [] }
+          |> (fun (s : KSt) =>
+            match s.pendFinish with
+            | none => s
+            | some (name, empty) =>
+              let s := { s with pendFinish := none }
+              match s.rs.lookup name with
+              | none => s          -- the resolver was destroyed by its own handler
+              | some (_, r) =>
+                let x := r.onLookupFinish {} empty
+                applyREffs p name x.2 (s.setR name x.1))
         else if t.h ≥ 1000000 then runQueueCb p t.h s     -- a queue's own callback (ignores `ec`)
         else
           let h := "h" ++ toString t.h
@@ -697,18 +832,59 @@ def pollLoop (p : KParams) (scn : Scn) : Nat → KSt → Nat → KSt × Nat
           let s := match s.pendNew.lookup t.h with
             | some nn => { s with hidden := s.hidden.filter (· != nn), pendNew := s.pendNew.filter (·.1 != t.h) }
             | none => s
-          doOps p scn 8 h (scn.ops h) s
+          -- self-perpetuating transfers re-issue themselves; their context's ops run when they end
+          match s.loops.lookup t.h with
+          | some ("read", sock, cap, _, _) =>
+            if ec == Ec.ok then
+              let r := s.net.tcpAsyncRead sock { h := t.h, caps := [cap] }
+              applyNEffs p netFuel r.2 { s with net := r.1 }
+            else doOps p scn 8 h (scn.ops h) { s with loops := s.loops.filter (·.1 != t.h) }
+          | some ("write", sock, stream, total, chunk) =>
+            let key := sock ++ "/" ++ toString stream
+            if ec == Ec.ok && (s.wrOff.lookup key).getD 0 < total then loopWrite p t.h sock stream total chunk s
+            else doOps p scn 8 h (scn.ops h) { s with loops := s.loops.filter (·.1 != t.h) }
+          | _ => doOps p scn 8 h (scn.ops h) s
+      -- an exception leaves poll_one() at once: no step hook, no further handler
+      if s.thrown then (s, n) else
       -- step hook `after_handler`: scenario ops placed at this event boundary
       let s := { s with stepNo := s.stepNo + 1 }
       let sc := "s" ++ toString s.stepNo
       let s := doOps p scn 8 sc (scn.ops sc) s
+      if s.thrown then (s, n + 1) else
       pollLoop p scn f s (n + 1)
+
+/-- order of `std::map<endpoint, …>`: IPv4 before IPv6, then address, then port -/
+def epLe (a b : Ep) : Bool :=
+  if a.isV4 != b.isV4 then a.isV4
+  else if a.addr != b.addr then (if a.isV4 then ip4 a.addr ≤ ip4 b.addr else a.addr ≤ b.addr)
+  else a.port ≤ b.port
+
+def sortEps (l : List (Ep × String)) : List (Ep × String) :=
+  l.foldl (fun acc x =>
+    let (lo, hi) := acc.partition (fun y => epLe y.1 x.1)
+    lo ++ [x] ++ hi) []
+
+/-- the `catch (...)` block of `simulation::run()`: cancel every timer (a copy of the queue),
+    every bound TCP socket (`tcp::socket::cancel`, also for acceptors: their accepts are NOT
+    aborted), every bound UDP socket; stop; rethrow -/
+def runCatch (p : KParams) (s : KSt) : KSt :=
+  let s := s.k.tq.foldl (fun (s : KSt) (x : Int × Nat) => { s with k := step p s.k (.cancel x.2) }) s
+  let s := (sortEps s.net.reg.tcp).foldl (fun (s : KSt) (x : Ep × String) =>
+    match s.net.tcp? x.2 with
+    | some t => let r := t.cancel; applyNEffs p netFuel r.2 { s with net := s.net.setTcp x.2 r.1 }
+    | none => s) s
+  let s := (sortEps s.net.reg.udp).foldl (fun (s : KSt) (x : Ep × String) =>
+    match s.net.udp? x.2 with
+    | some u => let r := u.cancel x.2; applyNEffs p netFuel r.2 { s with net := s.net.setUdp x.2 r.1 }
+    | none => s) s
+  { s with k := step p s.k .stop, thrown := false, threw := true }
 
 /-- `simulation::run()` -/
 def runLoop (p : KParams) (scn : Scn) : Nat → KSt → Nat → KSt × Nat
   | 0, s, r => ({ s with bad := true }, r)
   | f + 1, s, ret =>
     let (s, n) := pollLoop p scn 100000 s 0
+    if s.thrown then (runCatch p s, ret + n) else
     let s := s.emit ("K idle t=" ++ toString s.k.now)
     let m := (advance p s.k).2
     let s := { s with k := step p s.k .advance }
@@ -721,13 +897,15 @@ def runTop (p : KParams) (scn : Scn) : List (List String) → KSt → KSt
   | ["run"] :: rest, s =>
     let s := s.emit "C top run"
     let (s, r) := runLoop p scn 100000 s 0
-    let s := s.emit ("R top run => n=" ++ toString r ++ " t=" ++ toString s.k.now)
+    let s := if s.threw then { s with threw := false }.emit ("R top run => throw t=" ++ toString s.k.now)
+             else s.emit ("R top run => n=" ++ toString r ++ " t=" ++ toString s.k.now)
     runTop p scn rest s
   | op :: rest, s => runTop p scn rest (doOp p scn 8 "top" op s)
 
 def kernelTrace (p : KParams) (scn : Scn) : List String :=
   let s := runTop p scn (scn.ops "top") (({} : KSt).declare scn.decl)
   let s := s.emit ("Q t=" ++ toString s.k.now)
+  let s := if s.net.cfg.pcap then s.emit ("F pcap " ++ hexOf (Pcap.fileHeader ++ s.capture.reverse.flatten)) else s
   let body := s.out.reverse
   ["== " ++ scn.id] ++ body ++ (if s.bad then ["X model-error"] else []) ++ ["end"]
 
